@@ -1,60 +1,208 @@
+"""C19 - database upgrades apply each pending migration once, in order, or not at all.
+
+Leg A: Properties/C19.v (model Migrate/Migrate.v instantiated with the facts
+that lib/extract_c19.py regenerates into Generated/MigrateFacts.v: the
+atomicity clauses are theorems about `repo_code`, discharged by eq_refl).
+Leg B: harness/cmd/c19 - instrumented services through migration.Upgrade (one
+to three per call, failing migrations and SetVersion) and the REAL wtxmgr /
+waddrmgr managers on old-version databases with injected write failures;
+compared in Coq (Migrate/MigrateCorr.v: case_ok / real_ok) and judged by the
+property stated directly (oracle kinds)."""
+import re
+
 from vlib import *
+
+# this property's Coq files that the full build may not know yet, with their
+# dependencies inside the development (compiled by hand, in this order, while
+# they are not listed in _CoqProject)
+OWN = [
+    ("Generated/MigrateFacts.v", []),
+    ("Migrate/Migrate.v", ["Generated/MigrateFacts.v"]),
+    ("Migrate/MigrateProofs.v", ["Migrate/Migrate.v"]),
+    ("Migrate/MigrateCorr.v", ["Migrate/Migrate.v"]),
+    ("Properties/C19.v", ["Migrate/MigrateProofs.v"]),
+]
 
 
 class C19(Check):
     ID = "C19"
-    RULE = ("systematic: failure injected at every position of an unordered 6-entry table x stored versions 0..11; "
-            "random: tables of 0..7 entries (unordered, gaps, nil entries, nil duplicates, failing entries, numbers near 2^32), "
-            "stored version below/at/above latest, run through migration.Upgrade inside walletdb.Update on a real bbolt file; plus six cases on the REAL "
-            "wtxmgr and waddrmgr migration managers through wallet.Open (both components in one database transaction: newer versions refused with the whole "
-            "file unchanged, incl. the roll-back of the other component's already applied migration; the real drop-history migration applied and recorded). "
+    RULE = ("instrumented services through migration.Upgrade inside one walletdb.Update on a real bbolt file - systematic: a failure injected at "
+            "every position of an unordered 6-entry table x stored versions 0..11; two services per call with a failing migration at every "
+            "position of either table or a failing SetVersion of either x stored versions below/inside/at/above each table; random: 1-3 "
+            "services per call, tables of 0..7 entries (unordered, gaps, nil entries, nil duplicates, failing entries, numbers near 2^32), "
+            "stored version below/at/above latest, failing SetVersion. REAL wtxmgr and waddrmgr migration managers on databases degraded to "
+            "address-manager versions 5, 6, 7 / transaction-manager version 1 / newer than known, through wallet.Open (the repository's call "
+            "site), through migration.Upgrade (address manager alone, transaction manager alone, both in the opposite order) and through "
+            "waddrmgr.Open / wtxmgr.Open: without failure, and with a write failure injected at EVERY mutating call of the deepest upgrade "
+            "(txmgr 1->2, addrmgr 5->8; first/middle/last write of the others; thorough tier: every write of every layout); versions read "
+            "back through CurrentVersion, from the raw bucket and by the component's own Open; invoked real migrations from the call stack. "
             "non-trivial = at least one pending non-nil migration or stored version above latest; distinct by input")
     N_QUICK = 400
     N_THOROUGH = 20000
-    ASSUMPTIONS = ["all-or-nothing of the enclosing walletdb.Update is property C11 (model: abort restores the pre-state)",
-                   "sort.Slice is unstable: entries with equal numbers are generated only as nil migrations"]
+    ASSUMPTIONS = ["all-or-nothing of walletdb.Update itself is property C11 (model: the working copy is committed iff the closure returned nil); "
+                   "that the upgrade runs inside ONE such transaction which sees every error is NOT assumed: regenerated facts, premises of the theorems",
+                   "sort.Slice is unstable: entries with equal numbers are generated only as nil migrations",
+                   "address-manager layouts below version 5 (different bucket structure) are not built; real migrations are observed through "
+                   "their writes (a migration that writes nothing would not be seen as invoked)"]
 
-    def evaluate_model(self, cases):
-        # the cases on the real wtxmgr/waddrmgr migration managers are judged by
-        # the oracle only (their migrations are real code, not model terms)
-        idx = [i for i, c in enumerate(cases) if not c["in"].get("real")]
-        mism, logs, problems = super().evaluate_model([cases[i] for i in idx])
-        return [idx[m] for m in mism], logs, problems
+    # -- Coq files not yet known to the full build ------------------------
+    def run(self, tier, seed, replay=None):
+        import vlib
+        orig = vlib.ensure_coq
+
+        def build_then_own():
+            r = orig()
+            self.ensure_own_files()
+            return r
+        vlib.ensure_coq = build_then_own
+        try:
+            return super().run(tier, seed, replay)
+        finally:
+            vlib.ensure_coq = orig
+
+    def ensure_own_files(self):
+        """While Generated/MigrateFacts.v is not listed in _CoqProject the full
+        build does not compile it (and so none of the files importing it):
+        compile the stale ones by hand, in dependency order, under the build
+        lock.  A file that does not compile is left to the normal reporting
+        (Properties/C19.v then fails to check)."""
+        listed = open(os.path.join(COQ, "_CoqProject")).read()
+        if all(f in listed for f, _ in OWN):
+            return
+        with Lock("coq"):
+            def mtime(p):
+                return os.path.getmtime(p) if os.path.exists(p) else None
+            for f, deps in OWN:
+                src = os.path.join(COQ, f)
+                if not os.path.exists(src):
+                    return
+                vo = mtime(src + "o")
+                stale = vo is None or vo < os.path.getmtime(src)
+                for d in deps:
+                    dvo = mtime(os.path.join(COQ, d) + "o")
+                    if dvo is None or (vo is not None and vo < dvo):
+                        stale = True
+                if stale:
+                    rc, out, err = sh(["timeout", "900", "coqc", "-R", ".", "Verif", f], cwd=COQ, timeout=1000)
+                    if rc != 0:
+                        if not f.startswith("Properties/"):
+                            log("C19: %s does not compile: %s" % (f, (out + err)[-800:]))
+                        return
+
+    def extra_coverage(self, cases):
+        src = "unknown"
+        try:
+            m = re.search(r"\(\* facts source: (.*?) \*\)", open(os.path.join(COQ, "Generated", "MigrateFacts.v")).read(), re.S)
+            if m:
+                src = re.sub(r"\s+", " ", m.group(1))
+        except OSError:
+            pass
+        real = [c for c in cases if c["in"].get("real")]
+        return dict(facts_source=src,
+                    real_component_cases=len(real),
+                    real_cases_with_write_failure=len([c for c in real if c["obs"].get("fault")]),
+                    real_cases_model_compared=len([c for c in real if c["obs"].get("model_compared")]))
 
     def nontrivial(self, c):
         i = c["in"]
         if i.get("real"):
             return True
-        latest = max([v["num"] for v in i["versions"]] + [0])
-        if i["stored"] > latest:
-            return True
-        return any(v["num"] > i["stored"] and v["kind"] != "nil" for v in i["versions"])
+        for s in i["mgrs"]:
+            latest = max([v["num"] for v in s["versions"]] + [0])
+            if s["stored"] > latest:
+                return True
+            if any(v["num"] > s["stored"] and v["kind"] != "nil" for v in s["versions"]):
+                return True
+        return False
+
+    # -- correspondence ----------------------------------------------------
+    def evaluate_model(self, cases):
+        # instrumented cases: exact comparison (case_ok); cases on the real
+        # managers that perform an upgrade: projected comparison (real_ok);
+        # waddrmgr.Open / wtxmgr.Open alone are judged by the oracle only
+        inst = [i for i, c in enumerate(cases) if not c["in"].get("real")]
+        real = [i for i, c in enumerate(cases) if c["in"].get("real") and c["obs"].get("model_compared")]
+        mism, logs, problems = [], "", []
+        for idx, render, name in ((inst, self.render_cases, "cases"), (real, self.render_real, "real")):
+            for start in range(0, len(idx), self.SHARD):
+                chunk = idx[start:start + self.SHARD]
+                rc, out, err = coq_eval(self.ID, render([cases[i] for i in chunk]), "%s_%d" % (name, start))
+                logs += out[-2000:] + err[-2000:]
+                if rc != 0:
+                    problems.append("correspondence: %s file does not evaluate: %s" % (name, err[-1500:]))
+                    continue
+                bad = parse_nat_list(parse_printed(out, "bad"))
+                if bad is None:
+                    problems.append("correspondence: could not parse model output: " + out[-500:])
+                    continue
+                mism.extend(chunk[b] for b in bad)
+        return sorted(mism), logs, problems
+
+    @staticmethod
+    def _ver(v):
+        m = {"nil": "MNil", "ok": "(MOk %s)" % cN(v["id"]), "fail": "(MFail %s)" % cN(v["id"])}[v["kind"]]
+        return "{| num := %s; vmig := %s |}" % (cN(v["num"]), m)
+
+    @staticmethod
+    def _outcome(o):
+        if o == "ok":
+            return "(Some Ok)"
+        if o == "reversion":
+            return "(Some ErrReversion)"
+        if o == "setvfail":
+            return "(Some ErrSetVersion)"
+        if o.startswith("migfail:"):
+            return "(Some (ErrMigration %s))" % cN(int(o.split(":")[1]))
+        return "None"
 
     def render_cases(self, cases):
-        def ver(v):
-            m = {"nil": "MNil", "ok": "(MOk %s)" % cN(v["id"]), "fail": "(MFail %s)" % cN(v["id"])}[v["kind"]]
-            return "{| num := %s; vmig := %s |}" % (cN(v["num"]), m)
-
-        def outcome(o):
-            if o == "ok":
-                return "(Some Ok)"
-            if o == "reversion":
-                return "(Some ErrReversion)"
-            if o.startswith("migfail:"):
-                return "(Some (ErrMigration %s))" % cN(int(o.split(":")[1]))
-            return "None"
         rows = []
         for c in cases:
             i, o = c["in"], c["obs"]
-            rows.append("(%s, {| stored := %s; data := %s |}, (%s, {| stored := %s; data := %s |}, %s))" % (
-                clist([ver(v) for v in i["versions"]]), cN(i["stored"]), clist([cN(d) for d in i["data"]]),
-                outcome(o["outcome"]), cN(o["stored"]), clist([cN(d) for d in o["data"]]),
-                clist([cN(d) for d in o["invoked"]])))
+            ms = clist(["({| table := %s; setv_fails := %s |}, {| stored := %s; data := %s |})" % (
+                clist([self._ver(v) for v in s["versions"]]), cbool(s.get("setv_fails", False)),
+                cN(s["stored"]), clist([cN(d) for d in s["data"]])) for s in i["mgrs"]])
+            obs = clist(["({| stored := %s; data := %s |}, %s)" % (
+                cN(m["stored"]), clist([cN(d) for d in m["data"]]), clist([cN(d) for d in m["invoked"]])) for m in o["mgrs"]])
+            rows.append("(%s, (%s, %s))" % (ms, self._outcome(o["outcome"]), obs))
         return """From Verif Require Import Base.Prelude Migrate.Migrate Migrate.MigrateCorr.
 Local Open Scope N_scope.
-Definition cases : list (list version * db * (option outcome * db * list N)) :=
+Definition cases : list case :=
 %s.
 Definition bad := Eval vm_compute in mismatches cases.
+Print bad.
+""" % clist(["\n " + r for r in rows])
+
+    def render_real(self, cases):
+        """the real migrations as model terms: MOk <version>, MFail <version>
+        where the injected write failure landed, a failing SetVersion where it
+        landed there"""
+        rows = []
+        for c in cases:
+            o = c["obs"]
+            fault = o.get("fault") or {}
+            ms = []
+            for m in o["mgrs"]:
+                vs = []
+                for v in m["table"]:
+                    if v["nil"]:
+                        kind = "MNil"
+                    elif fault.get("ns") == m["ns"] and not fault.get("set_version") and fault.get("version") == v["num"]:
+                        kind = "(MFail %s)" % cN(v["num"])
+                    else:
+                        kind = "(MOk %s)" % cN(v["num"])
+                    vs.append("{| num := %s; vmig := %s |}" % (cN(v["num"]), kind))
+                setv = fault.get("ns") == m["ns"] and bool(fault.get("set_version"))
+                ms.append("({| table := %s; setv_fails := %s |}, %s)" % (clist(vs), cbool(setv), cN(m["stored_before"])))
+            cls = {"ok": 0, "reversion": 1}.get(o["class"], 2)
+            obs = clist(["(%s, %s, %s)" % (cN(m["version_after"]), cbool(m["namespace_unchanged"]),
+                                           clist([cN(d) for d in m["invoked"]])) for m in o["mgrs"]])
+            rows.append("(%s, %s, (%s, %s))" % (cbool(o["through_repo_call_site"]), clist(ms), cN(cls), obs))
+        return """From Verif Require Import Base.Prelude Migrate.Migrate Migrate.MigrateCorr.
+Local Open Scope N_scope.
+Definition cases : list real_case :=
+%s.
+Definition bad := Eval vm_compute in real_mismatches cases.
 Print bad.
 """ % clist(["\n " + r for r in rows])
 
